@@ -32,12 +32,15 @@ type c10Params struct {
 	ClientAuth bool    `json:"client_auth"`
 	Servers    int     `json:"servers"`
 	Ops        []c10Op `json:"ops"`
+	// ClientCap: capacity of the client's session cache (0 = 64). With a single server the latest session stays
+	// reachable under the server's address whatever the capacity, so the predictions do not change.
+	ClientCap int `json:"client_cap,omitempty"`
 }
 
 func (c10) ID() string    { return "C10" }
 func (c10) Level() string { return "exploration" }
 func (c10) Rule() string {
-	return "each case is a history drawn from the seed over one client configuration (one session cache) and 1-3 real servers at distinct addresses (one cache each): connect (handshake + echo), server loses its cache (restart), client or server changes its enabled suites, a scripted client offers a forged or stale session id, a handshake that offered a session is ruined (transport cut / peer gone), servers and client move to another CA (cached sessions no longer verify; and back); with or without client certificates; both stacks. A reference model of the caches predicts for every connection whether it resumes. Oracle: DidResume on both sides equals the prediction and every honest connection succeeds; a resumed connection reports the original peer certificates on both sides and has fresh randoms and Finished values; new session ids are 32 bytes and unique in the history; after a ruined handshake the next ClientHello to that server carries no session id (wire). distinct = distinct histories; non-trivial = at least one resumption and one non-trivial event (restart, reconfiguration, forged id, ruin)"
+	return "each case is a history drawn from the seed over one client configuration (one session cache) and 1-3 real servers at distinct addresses (one cache each): connect (handshake + echo), server loses its cache (restart), client or server changes its enabled suites, a scripted client offers a forged or stale session id, a handshake that offered a session is ruined (transport cut / peer gone), servers and client move to another CA (cached sessions no longer verify; and back); with or without client certificates; client cache capacity 64, or 1-2 with a single server; both stacks. A reference model of the caches predicts for every connection whether it resumes. Oracle: DidResume on both sides equals the prediction and every honest connection succeeds; a resumed connection reports the original peer certificates on both sides (also to the VerifyConnection callbacks) and has fresh randoms and Finished values; new session ids are 32 bytes and unique in the history; after a ruined handshake the next ClientHello to that server carries no session id (wire). distinct = distinct histories; non-trivial = at least one resumption and one non-trivial event (restart, reconfiguration, forged id, ruin)"
 }
 func (c10) Components() (real, stub []string) {
 	return []string{"tlcp/dtlcp client and servers (instrumented): loadSession, checkForResumption, session creation and cleanup, lruSessionCache"},
@@ -91,6 +94,9 @@ func drawC10(src *vs.Src) *c10Params {
 		p.Ops = append(p.Ops, op)
 	}
 	p.Ops = append(p.Ops, c10Op{Op: "connect", Server: 0})
+	if p.Servers == 1 && src.Bool(1, 2) {
+		p.ClientCap = 1 + src.Intn(2)
+	}
 	return p
 }
 
@@ -121,7 +127,11 @@ func (c10) Run(c *Case, src *vs.Src) *Result {
 	sigp := "C10 " + p.Stack
 	pj, _ := json.Marshal(p)
 	r.Key = hashKey(string(pj))
-	tcC, dcC := tlcp.NewLRUSessionCache(64), dtlcp.NewLRUSessionCache(64)
+	ccap := 64
+	if p.ClientCap > 0 {
+		ccap = p.ClientCap
+	}
+	tcC, dcC := tlcp.NewLRUSessionCache(ccap), dtlcp.NewLRUSessionCache(ccap)
 	tcS, dcS := make([]tlcp.SessionCache, p.Servers), make([]dtlcp.SessionCache, p.Servers)
 	for i := range tcS {
 		tcS[i], dcS[i] = tlcp.NewLRUSessionCache(64), dtlcp.NewLRUSessionCache(64)
@@ -230,6 +240,10 @@ func (c10) Run(c *Case, src *vs.Src) *Result {
 			continue
 		}
 		// connect / ruin: real client and real server
+		// what the VerifyConnection callbacks are shown (the last call of each side)
+		var seenC, seenS [3]int // calls, resumed, peer certificates
+		cc.OnVerify = func(res bool, n int) { seenC = [3]int{seenC[0] + 1, b2i(res), n} }
+		sc.OnVerify = func(res bool, n int) { seenS = [3]int{seenS[0] + 1, b2i(res), n} }
 		pair := NewPair(p.Stack, env, cc, sc, fmt.Sprintf("c%d", n), fmt.Sprintf("s%d", n), "client:1", sa)
 		prev := clientHas[op.Server]
 		out := &HSOut{}
@@ -307,6 +321,12 @@ func (c10) Run(c *Case, src *vs.Src) *Result {
 		if d := out.CheckEcho(); d != "" {
 			r.Violate("echo", sigp+" echo", "%s: %s", tag, d)
 		}
+		// the application's VerifyConnection callback is shown the identity the connection ends up with
+		if seenC[0] == 0 || seenS[0] == 0 {
+			r.Violate("verify-callback", sigp+" verify-connection-not-called", "%s: VerifyConnection calls: client %d, server %d", tag, seenC[0], seenS[0])
+		} else if seenC[2] != len(out.CCS.Peer) || seenS[2] != len(out.SCS.Peer) || seenC[1] != b2i(out.CCS.Resumed) || seenS[1] != b2i(out.SCS.Resumed) {
+			r.Violate("verify-callback", fmt.Sprintf("%s verify-connection-sees-other-identity resumed=%v", sigp, out.SCS.Resumed), "%s: VerifyConnection was shown (resumed=%d, %d peer certificates) on the client and (resumed=%d, %d) on the server; the connections report resumed=%v/%v with %d/%d peer certificates", tag, seenC[1], seenC[2], seenS[1], seenS[2], out.CCS.Resumed, out.SCS.Resumed, len(out.CCS.Peer), len(out.SCS.Peer))
+		}
 		sid := hex.EncodeToString(srvID)
 		if out.CCS.Resumed {
 			nResumed++
@@ -356,4 +376,11 @@ func c10Hellos(dtls bool, units [2][][]byte) (offered, srvID, cr, sr []byte) {
 		srvID, sr = v.SH.SessionID, v.SH.Random
 	}
 	return
+}
+
+func b2i(b bool) int {
+	if b {
+		return 1
+	}
+	return 0
 }
